@@ -73,6 +73,31 @@ def run(ctx):
         for b, t, c in f.calls():
             if c and c.startswith("alloc::vec::Vec") and any("breakpoint::Breakpoint" in a and a.startswith("&mut") for a in t.get("arg_tys", [])[:1]):
                 ctx.violation("vec-op|fn=%s" % short(n), sp_file_line(t.get("sp")), "`%s` mutates a Vec<Breakpoint> directly (%s)" % (short(n), short(c)))
+    # ... and only the commands that are documented to change the set may call them: `break add` inserts, `break remove` removes,
+    # the parser records `.break`; any other caller (a reset that re-adds presets, a step that drops one) changes which addresses stop
+    disp_, sw_bb_, arms_, sp_, selfp_ = dbg.dispatcher(ctx)
+    WANT_CALLERS = {"insert": {("dispatcher", "BreakAdd"), ("lace::parser::AsmParser::parse", None)},
+                    "remove": {("dispatcher", "BreakRemove")}}
+    for m, want in sorted(WANT_CALLERS.items()):
+        got = set()
+        for c in sorted(ctx.cg.callers(BP + "::" + m)):
+            f_ = prog.fns.get(c)
+            if f_ is None:
+                continue
+            if f_.name == disp_.name:
+                for b, t, cc in f_.calls():
+                    if cc == BP + "::" + m:
+                        ar = sorted(a for a, e in arms_.items() if b in dbg.arm_region(disp_, e))
+                        got.add(("dispatcher", ar[0] if ar else "<outside any arm>"))
+            else:
+                got.add((c, None))
+        ctx.instance(1)
+        ok = got == want
+        ctx.oblig(ok, {"callers of %s" % m: sorted("%s%s" % (short(a), "/" + b if b else "") for a, b in got)}, "reviewed closed set")
+        if not ok:
+            extra = sorted("%s%s" % (short(a), " (" + b + " arm)" if b else "") for a, b in got - want)
+            ctx.violation("caller|%s" % m, prog.fns[BP + "::" + m].file_line(), "Breakpoints::%s is called from %s; only %s may change the set of breakpoints"
+                          % (m, extra or "fewer places than expected", sorted("%s%s" % (short(a), " (" + b + " arm)" if b else "") for a, b in want)))
     ctx.finish_rule()
 
     ctx.rule("C11.R2", "insert keeps the list duplicate-free and ordered; remove is a retain(!=)", floor=4)
@@ -361,6 +386,51 @@ def run(ctx):
         ctx.violation("stale-marker", cf.file_line(),
                       "the interrupt check can return without stopping and without rewriting `%s`%s: the marker of a breakpoint left long ago "
                       "survives, and the next arrival at that breakpoint is not stopped" % (mk, " (lines %s)" % cf.path_lines(p) if p else ""))
+    # the marker suppresses a stop only for the very address it names: every test of the marker in the interrupt check (or in a
+    # closure it builds) is an (in)equality with Some(pc); is_none()/is_some()/a match on it would let a *different* breakpoint through
+    def marker_tests(f, mentions):
+        out = []
+        for b_, t_, c_ in f.calls():
+            args = [f.expr(a_, 8) for a_ in t_["args"]]
+            if any(mentions(a_) for a_ in args):
+                out.append((f, b_, t_, c_, args))
+        for b_ in sorted(f.live_blocks()):
+            t_ = f.term(b_)
+            if t_["k"] == "switch":
+                e_ = f.expr(t_["a"], 6)
+                if e_[0] == "discr" and mentions(e_[1]) and not any(x[0] == "call" for x in expr_walk(e_)):
+                    out.append((f, b_, t_, "<match on the marker>", [e_]))
+        return out
+    def strip_closures(e):
+        if isinstance(e, tuple) and e and e[0] == "agg" and isinstance(e[1], tuple) and e[1] and e[1][0] == "closure":
+            return ("closure",)
+        if isinstance(e, tuple):
+            return tuple(strip_closures(x) if isinstance(x, tuple) else x for x in e)
+        return e
+    tests = marker_tests(cf, lambda e: any(x[0] == "field" and x[2] == mk for x in expr_walk(strip_closures(e))))
+    for b_, i_, s2 in cf.assigns():
+        if s2["r"]["k"] == "agg" and s2["r"].get("ak") == "closure":
+            clf = prog.fns.get(s2["r"].get("closure"))
+            if clf is None:
+                continue
+            cap_idx = {str(i) for i, o in enumerate(s2["r"]["ops"]) if any(x[0] == "field" and x[2] == mk for x in expr_walk(cf.expr(o, 6)))}
+            if cap_idx:
+                tests += marker_tests(clf, lambda e, _ci=cap_idx: any(x[0] == "field" and str(x[2]) in _ci and any(y[0] == "arg" and y[1] == 1 for y in expr_walk(x)) for x in expr_walk(e)))
+    ctx.instance(1)
+    badt = []
+    good = 0
+    for f_, b_, t_, c_, args in tests:
+        if c_ and (str(c_).endswith("PartialEq::ne") or str(c_).endswith("PartialEq::eq") or str(c_).endswith("PartialEq>::eq") or str(c_).endswith("PartialEq>::ne")):
+            if any(x[0] == "agg" and x[1][0] == "adt" and x[1][2] == "Some" for a_ in args for x in expr_walk(a_)) or \
+               any(x[0] == "uneval" for a_ in args for x in expr_walk(a_)):
+                good += 1
+                continue
+        badt.append((short(f_.name), short(str(c_)), sp_file_line(t_.get("sp"))))
+    okf = good >= 1 and not badt
+    ctx.oblig(okf, {"tests of the marker": good, "other uses": badt}, "only (in)equality with Some(pc)")
+    if not okf:
+        ctx.violation("marker-compare", cf.file_line(), "a found breakpoint must be let through only when the just-paused marker names this very address (`%s != Some(pc)`); "
+                      "the marker is examined by %s: resuming from one breakpoint can then run through a different one" % (mk, badt or "nothing"))
     for b in sorted(mk_blocks):
         for s_ in cf.stmts(b):
             if s_["k"] == "assign" and [e.get("n") for e in s_["p"].get("pr", []) if isinstance(e, dict) and "f" in e][-1:] == [mk]:
